@@ -35,7 +35,7 @@ class DiffXReader(object):
     """
 
     _HEADER_OPTION_KEY_RE = re.compile(br'[A-Za-z][A-Za-z0-9_-]*')
-    _HEADER_OPTION_VALUE_RE = re.compile(br'[A-Za-z0-9_.-]+')
+    _HEADER_OPTION_VALUE_RE = re.compile(br'[A-Za-z0-9/_.-]+')
     _HEADER_RE = re.compile(
         br'^#(?P<section_id>(?P<level>\.{0,3})'
         br'(?P<section_type>diffx|preamble|meta|change|file|diff)):'
@@ -367,20 +367,20 @@ class DiffXReader(object):
             for option_pair in options_str.split(b', '):
                 option_key, option_value = option_pair.split(b'=', 1)
 
-                if not self._HEADER_OPTION_KEY_RE.match(option_key):
+                if not self._HEADER_OPTION_KEY_RE.fullmatch(option_key):
                     raise DiffXParseError(
                         'Header option key "%s" contains invalid characters'
-                        % option_key.decode('ascii'),
+                        % option_key.decode('ascii', 'replace'),
                         linenum=linenum,
                         column=header.index(option_pair))
 
-                if not self._HEADER_OPTION_VALUE_RE.match(option_value):
+                if not self._HEADER_OPTION_VALUE_RE.fullmatch(option_value):
                     raise DiffXParseError(
                         'Header option value "%(value)s" for key "%(key)s" '
                         'contains invalid characters'
                         % {
                             'key': option_key.decode('ascii'),
-                            'value': option_value.decode('ascii'),
+                            'value': option_value.decode('ascii', 'replace'),
                         },
                         linenum=linenum,
                         column=header.index(option_pair) + len(option_key) + 1)
